@@ -249,7 +249,6 @@ def _add_view(src, v, problems):
         problems.append('add_view: the exception-context statements changed their order')
 
 
-CALL_VIEW_MASKED = '3874a0fb528f00a3'
 PERMISSIVE_OLD = """
 if not secure:
     view_callable = getattr(view_callable, '__call_permissive__', view_callable)
@@ -281,7 +280,7 @@ def _permissive(src, v, problems):
         if isinstance(n, ast.If) and isinstance(n.test, ast.UnaryOp) and isinstance(n.test.op, ast.Not) \
                 and _name(n.test.operand) == 'secure':
             n.body = [ast.Pass()]
-    if hashlib.sha1(ast.dump(cp).encode()).hexdigest()[:16] != CALL_VIEW_MASKED:
+    if hashlib.sha1(ast.dump(cp).encode()).hexdigest()[:16] != _masked_pins()['pyramid/view.py']['_call_view']:
         problems.append('shape pin pyramid/view.py:_call_view (secure=False block masked) changed: the hand-written '
                         'model follows the previous text of this function')
     got = ast.dump(F.strip_doc(blocks[0]).body[0])
@@ -291,6 +290,75 @@ def _permissive(src, v, problems):
         v['permissive_checks_predicates'] = True
     else:
         problems.append('_call_view: the body of "if not secure:" is neither the known text nor its repair')
+
+
+def _masked_pins():
+    import json
+    import os
+    with open(os.path.join(os.path.dirname(os.path.abspath(__file__)), 'pins_masked.json')) as f:
+        return json.load(f)
+
+
+def masked_add_view_shape(src):
+    """add_view with the bodies of its nested functions blanked (they are pinned / translated on their own)"""
+    import hashlib
+    m = F.Module(src, 'pyramid/config/views.py')
+    fn = F.strip_doc(m.find('ViewsConfiguratorMixin.add_view'))
+    top = fn.body[0] if isinstance(fn, ast.Module) else fn
+    for n in ast.walk(top):
+        if isinstance(n, ast.FunctionDef) and n is not top:
+            n.body = [ast.Pass()]
+    return hashlib.sha1(ast.dump(top).encode()).hexdigest()[:16]
+
+
+def _masked(src, v, problems):
+    if masked_add_view_shape(src) != _masked_pins()['pyramid/config/views.py']['ViewsConfiguratorMixin.add_view']:
+        problems.append('shape pin pyramid/config/views.py:ViewsConfiguratorMixin.add_view (nested functions masked) '
+                        'changed: the hand-written model follows the previous text of this function')
+
+
+CLASS_FACTS = [
+    # (file, class, bases as written, {class-level name: value as written})
+    ('pyramid/httpexceptions.py', 'HTTPException', ['Response', 'Exception'], {}),
+    ('pyramid/httpexceptions.py', 'HTTPError', ['HTTPException'], {}),
+    ('pyramid/httpexceptions.py', 'HTTPClientError', ['HTTPError'], {'code': '400'}),
+    ('pyramid/httpexceptions.py', 'HTTPNotFound', ['HTTPClientError'], {'code': '404'}),
+    ('pyramid/httpexceptions.py', 'HTTPForbidden', ['HTTPClientError'], {'code': '403'}),
+    ('pyramid/exceptions.py', 'PredicateMismatch', ['HTTPNotFound'], {}),
+    ('pyramid/request.py', 'Request', None, {'exception': 'None', 'exc_info': 'None', 'request_iface': 'IRequest'}),
+]
+DECORATED = {'add_view': ['viewdefaults', 'action_method'], 'add_forbidden_view': ['viewdefaults', 'action_method'],
+             'add_notfound_view': ['viewdefaults', 'action_method'], 'add_exception_view': ['viewdefaults', 'action_method']}
+
+
+def _classes(src, v, problems):
+    """class-level facts the model relies on: base classes and status codes of the HTTP exceptions the framework
+    raises, the class-level defaults of Request, IRequest.combined, the decorators of the directives"""
+    for rel, cls, bases, attrs in CLASS_FACTS:
+        m = F.Module(src, rel)
+        node = m.find(cls)
+        if node is None or not isinstance(node, ast.ClassDef):
+            problems.append('%s: class %s not found' % (rel, cls))
+            continue
+        if bases is not None and [ast.unparse(b) for b in node.bases] != bases:
+            problems.append('%s: bases of %s are %s, expected %s' % (rel, cls, [ast.unparse(b) for b in node.bases], bases))
+        have = {}
+        for st in node.body:
+            if isinstance(st, ast.Assign) and len(st.targets) == 1 and isinstance(st.targets[0], ast.Name):
+                have.setdefault(st.targets[0].id, []).append(ast.unparse(st.value))
+        for k, want in attrs.items():
+            if have.get(k) != [want]:
+                problems.append('%s: %s.%s is %s, expected %s' % (rel, cls, k, have.get(k), want))
+    mi = F.Module(src, 'pyramid/interfaces.py')
+    n = [ast.unparse(st) for st in mi.tree.body if isinstance(st, ast.Assign) and 'combined' in ast.unparse(st.targets[0])]
+    if n != ['IRequest.combined = IRequest']:
+        problems.append('pyramid/interfaces.py: IRequest.combined is set by %s' % n)
+    mv = F.Module(src, 'pyramid/config/views.py')
+    for meth, want in DECORATED.items():
+        fn = mv.find('ViewsConfiguratorMixin.' + meth)
+        got = [ast.unparse(d) for d in fn.decorator_list] if fn else None
+        if got != want:
+            problems.append('%s: decorators %s, expected %s' % (meth, got, want))
 
 
 def _forwards(src, v, problems):
@@ -358,7 +426,7 @@ def extract(src, problems):
     # _iev, _tweens and the default-view check are superseded by harness/c14/translate.py (the functions are
     # regenerated as gen_*; their constants stay at the property's values in code_params and are no longer used by
     # the executed pipeline)
-    for f in (_config, _add_view, _permissive, _forwards, _c15_tie):
+    for f in (_config, _add_view, _permissive, _forwards, _c15_tie, _masked, _classes):
         try:
             f(src, v, problems)
         except Exception as e:          # fail closed
